@@ -10,6 +10,81 @@ from .report import REPO, AnalysisError
 PKG = "inference"
 
 
+# -------------------------------------------------------------------- local-name normalisation
+# Several structural rules look definitions up by the local variable names the repository uses.  To keep
+# their verdict independent of a pure renaming of locals, the names of each function's locals are mapped
+# back, by order of first binding, to the names recorded for that function in sa/reference_locals.json -
+# only when the *number* of locals is unchanged and the names differ; otherwise the function is left as is.
+REFERENCE_LOCALS = os.path.join(os.path.dirname(os.path.abspath(__file__)), "reference_locals.json")
+_ref_cache = {}
+
+
+def _reference_locals():
+    if "v" not in _ref_cache:
+        try:
+            import json
+            _ref_cache["v"] = json.load(open(REFERENCE_LOCALS))
+        except Exception:
+            _ref_cache["v"] = {}
+    return _ref_cache["v"]
+
+
+def function_locals(fn):
+    """Local names of fn in order of first binding (source order); nested defs are separate scopes."""
+    params = {a.arg for a in fn.args.posonlyargs + fn.args.args + fn.args.kwonlyargs}
+    if fn.args.vararg:
+        params.add(fn.args.vararg.arg)
+    if fn.args.kwarg:
+        params.add(fn.args.kwarg.arg)
+    declared, order = set(), []
+
+    def visit(n):
+        if isinstance(n, (ast.FunctionDef, ast.ClassDef)) and n is not fn:
+            return
+        if isinstance(n, (ast.Global, ast.Nonlocal)):
+            declared.update(n.names)
+        if isinstance(n, ast.Lambda):
+            return
+        if isinstance(n, ast.Name) and isinstance(n.ctx, ast.Store) and n.id not in params and n.id not in order:
+            order.append(n.id)
+        # evaluation order: the value of an assignment is visited before its targets would not matter here
+        for c in ast.iter_child_nodes(n):
+            visit(c)
+    for st in fn.body:
+        visit(st)
+    return [x for x in order if x not in declared]
+
+
+def iter_functions(tree, prefix=""):
+    for st in tree.body if hasattr(tree, "body") else []:
+        if isinstance(st, ast.FunctionDef):
+            yield prefix + st.name + ("#setter" if any(ast.unparse(d).endswith(".setter") for d in st.decorator_list) else ""), st
+        elif isinstance(st, ast.ClassDef):
+            yield from iter_functions(st, prefix + st.name + ".")
+
+
+def normalise_locals(tree, rel):
+    ref = _reference_locals().get(rel)
+    if not ref:
+        return 0
+    renamed = 0
+    for qn, fn in iter_functions(tree):
+        want = ref.get(qn)
+        have = function_locals(fn)
+        if not want or len(want) != len(have) or want == have or set(want) == set(have):
+            continue
+        mapping = {h: w for h, w in zip(have, want) if h != w}
+        # never rename onto a name that is otherwise used in the function (parameter / global)
+        used = {n.id for n in ast.walk(fn) if isinstance(n, ast.Name)} | {a.arg for a in fn.args.args}
+        if any(w in used and w not in have for w in mapping.values()):
+            continue
+        for n in ast.walk(fn):
+            if isinstance(n, ast.Name) and n.id in mapping:
+                n.id = mapping[n.id]
+                renamed += 1
+    return renamed
+
+
 class ClassInfo:
     def __init__(self, name, module, node):
         self.name = name
@@ -74,6 +149,7 @@ class Program:
         self.modules = {}             # dotted name -> ModuleInfo
         self.by_rel = {}
         for rel, tree in trees.items():
+            normalise_locals(tree, rel)
             name = rel[:-3].replace("/", ".")
             if name.endswith(".__init__"):
                 name = name[: -len(".__init__")]
